@@ -346,7 +346,12 @@ pub fn gen_c17(rng: &mut Rng, tier: Tier) -> C17Plan {
     // headers other instances parse in between (process-wide parse state).
     let inherit = rng.chance(1, 6);
     let mix = if inherit { &MIX_INHERIT } else { &MIX_SUB };
-    let subplans: Vec<Session> = (0..nsub).map(|_| gen_session(rng, mix)).collect();
+    // One world in 40 puts the replicated instance under STORE PRESSURE (a few large or
+    // dozens of small valid pictures with distinct temporal references): whatever a decoder
+    // keeps per instance must not make replicas diverge once it holds many / large entries
+    // (eviction by hash-map iteration order, size thresholds).
+    let pressure = !inherit && rng.chance(1, 40);
+    let subplans: Vec<Session> = (0..nsub).map(|k| if pressure && k == 0 { crate::props::c01::gen_store_pressure_session(rng) } else { gen_session(rng, mix) }).collect();
     // A "sibling" of sub-plan 0: same sizes, temporal references, picture types,
     // macroblock structure and vectors, but different sample content (other
     // INTRADC values).  Any cache or scratch state keyed by header fields instead
@@ -441,7 +446,7 @@ pub fn gen_c17(rng: &mut Rng, tier: Tier) -> C17Plan {
         })
         .collect();
     C17Plan {
-        note: format!("{}{nthreads} threads, {} instances ({} sub-plans{}), {} schedule slices (style {style})", if inherit { "INHERITANCE world (PLUSPTYPE headers with OPPTYPE mode bits / UFEP=000), " } else { "" }, instances.len(), subplans.len(), if sibling.is_some() { ", one a content-only sibling of sub-plan 0" } else { "" }, schedule.len()),
+        note: format!("{}{nthreads} threads, {} instances ({} sub-plans{}), {} schedule slices (style {style})", if inherit { "INHERITANCE world (PLUSPTYPE headers with OPPTYPE mode bits / UFEP=000), " } else if pressure { "STORE-PRESSURE world, " } else { "" }, instances.len(), subplans.len(), if sibling.is_some() { ", one a content-only sibling of sub-plan 0" } else { "" }, schedule.len()),
         subplans,
         instances,
         threads,
@@ -454,7 +459,7 @@ impl Property for C17 {
     const ID: &'static str = "C17";
     const LEVEL: &'static str = "exploration";
     const CROSS_PROCESS_RUNS: u64 = 6000;
-    const RULE: &'static str = "seeded worlds of 2-4 caller threads owning 3-8 decoder instances (at least two replicas fed the same history, the others unrelated histories including corrupted inputs and source faults that make their decoder fail; one world in six is an inheritance world of standard-mode decoders fed PLUSPTYPE headers that restate OPPTYPE with arbitrary mode bits or rely on carried-over context with UFEP=000, and plain PTYPE headers with optional-mode bits set), executed under the simulator's baton scheduler: one thread runs at a time, pre-emption points are every source read and every call boundary, the successor comes from the plan's schedule. Oracles: replicas agree; every instance's history digest (every result and every state digest) equals the digest of the same history run alone and sequentially; the same runs executed in two further fresh processes give identical digests (per-process hash seeds, addresses, lazy statics first used from a non-main thread). evaluations = decode calls made under the scheduler. A case is non-trivial if the schedule actually switched threads while decode calls were in flight; distinct by (context-switch sequence hash, thread step lists).";
+    const RULE: &'static str = "seeded worlds of 2-4 caller threads owning 3-8 decoder instances (at least two replicas fed the same history, the others unrelated histories including corrupted inputs and source faults that make their decoder fail; one world in six is an inheritance world of standard-mode decoders fed PLUSPTYPE headers that restate OPPTYPE with arbitrary mode bits or rely on carried-over context with UFEP=000, and plain PTYPE headers with optional-mode bits set; one world in 40 puts the replicated instance under store pressure: 3-8 valid pictures of up to 704x576 or 36-80 small ones with distinct temporal references), executed under the simulator's baton scheduler: one thread runs at a time, pre-emption points are every source read and every call boundary, the successor comes from the plan's schedule. Oracles: replicas agree; every instance's history digest (every result and every state digest) equals the digest of the same history run alone and sequentially; the same runs executed in two further fresh processes give identical digests (per-process hash seeds, addresses, lazy statics first used from a non-main thread). evaluations = decode calls made under the scheduler. A case is non-trivial if the schedule actually switched threads while decode calls were in flight; distinct by (context-switch sequence hash, thread step lists).";
     fn runs(tier: Tier) -> u64 {
         match tier {
             Tier::Quick => 24_000,
@@ -466,6 +471,9 @@ impl Property for C17 {
     }
     fn execute(plan: &C17Plan, st: &mut Stats) -> Option<Violation> {
         st.sample(|| json!({"note": plan.note, "instances": plan.instances, "threads": plan.threads.iter().map(|t| t.len()).collect::<Vec<_>>(), "schedule": plan.schedule.iter().take(12).collect::<Vec<_>>()}));
+        if plan.note.starts_with("STORE-PRESSURE") {
+            st.inc("probe.store_pressure_world");
+        }
         if plan.note.starts_with("INHERITANCE") {
             st.inc("probe.inheritance_world");
             let pics = || plan.subplans.iter().flat_map(|s| s.pics.iter()).filter_map(|p| p.spec.as_ref());
@@ -514,7 +522,7 @@ impl Property for C17 {
         ]
     }
     fn probe_names() -> Vec<&'static str> {
-        vec!["replica_pairs_compared", "schedules_with_4_or_more_switches", "inheritance_world", "ufep0_headers_in_inheritance_worlds", "opptype_headers_with_mode_bits_in_inheritance_worlds"]
+        vec!["replica_pairs_compared", "schedules_with_4_or_more_switches", "store_pressure_world", "inheritance_world", "ufep0_headers_in_inheritance_worlds", "opptype_headers_with_mode_bits_in_inheritance_worlds"]
     }
 }
 
